@@ -177,6 +177,44 @@ def loopTimer : Effect → Bool
 def Keep4 (f : State → State) : Prop :=
   ∀ s, (f s).ms = s.ms ∧ (f s).conn = s.conn ∧ (f s).token = s.token ∧ (f s).epoch = s.epoch ∧ (f s).cfg = s.cfg
 
+/-- … and the probe -/
+def Keep5 (f : State → State) : Prop :=
+  ∀ s, (f s).ms = s.ms ∧ (f s).conn = s.conn ∧ (f s).token = s.token ∧ (f s).epoch = s.epoch ∧ (f s).cfg = s.cfg ∧
+    (f s).probe = s.probe
+
+theorem Keep5.keep4 {f : State → State} (h : Keep5 f) : Keep4 f :=
+  fun s => ⟨(h s).1, (h s).2.1, (h s).2.2.1, (h s).2.2.2.1, (h s).2.2.2.2.1⟩
+
+/-- a write to the probe that keeps its target or drops it, and never takes back that the indirect stage was
+    reached (everything but `Probe::start`) -/
+def ProbeMono (g : Probe → Probe) : Prop :=
+  ∀ p, (g p).direct = none ∨ ((g p).direct = p.direct ∧ (p.reached = true → (g p).reached = true))
+
+theorem ProbeMono.clear : ProbeMono Probe.clear := fun _ => Or.inl rfl
+
+theorem ProbeMono.takeFailed : ProbeMono (fun p => p.takeFailed.2) := by
+  intro p
+  show p.takeFailed.2.direct = none ∨ (p.takeFailed.2.direct = p.direct ∧ (p.reached = true → p.takeFailed.2.reached = true))
+  unfold Probe.takeFailed
+  split
+  · exact Or.inl rfl
+  · exact Or.inr ⟨rfl, id⟩
+
+theorem ProbeMono.receiveAck (src : Id) (n : Nat) : ProbeMono (fun p => p.receiveAck src n) := by
+  intro p
+  show (p.receiveAck src n).direct = none ∨ ((p.receiveAck src n).direct = p.direct ∧ (p.reached = true → (p.receiveAck src n).reached = true))
+  unfold Probe.receiveAck
+  split <;> exact Or.inr ⟨rfl, id⟩
+
+theorem ProbeMono.receiveIndirectAck (src : Id) (n : Nat) : ProbeMono (fun p => p.receiveIndirectAck src n) := by
+  intro p
+  show (p.receiveIndirectAck src n).direct = none ∨
+    ((p.receiveIndirectAck src n).direct = p.direct ∧ (p.reached = true → (p.receiveIndirectAck src n).reached = true))
+  unfold Probe.receiveIndirectAck
+  split
+  · exact Or.inr ⟨rfl, id⟩
+  · split <;> exact Or.inr ⟨rfl, id⟩
+
 /-- leaf obligations of an effect-aware invariant. `special` marks the effects the invariant accounts for (they
     are emitted only inside the unit leaves); the four connection-state transitions and the two units in which
     membership and its notifications change together are leaves. -/
@@ -196,82 +234,129 @@ structure LeavesC (E : Env) (P : State → List Effect → Prop) (special : Effe
   adjustConnectionState : PresC P (Foca.adjustConnectionState E)
   setConfig : ∀ cfg, PresC P (Foca.setConfig cfg)
 
+/-- the same with the writes to the probe told apart: `keep` only for writes that leave the probe alone, one leaf
+    for the probe writes that keep or drop the target, and `Probe::start` a hypothesis of the two lemmas that
+    reach it — for invariants that look at the probe -/
+structure LeavesP (E : Env) (P : State → List Effect → Prop) (special : Effect → Bool) : Prop where
+  plain : ∀ e, memberNote e = false → loopTimer e = false → special e = false
+  keep : ∀ f, Keep5 f → PresC P (modS f)
+  probeMono : ∀ g : Probe → Probe, ProbeMono g → PresC P (modS fun s => { s with probe := g s.probe })
+  emitOther : ∀ e, special e = false → PresC P (emit e)
+  removeDown : ∀ id, PresC P (modS fun s => { s with ms := removeIfDown s.ms id })
+  membersNext : PresC P membersNext
+  sendMessage : ∀ d m, PresC P (sendMessage E d m)
+  applyUpdate : ∀ u b, PresC P (applyUpdate E u b)
+  applyExistingReport : ∀ u cond, PresC P (applyExistingReport E u cond)
+  reset : PresC P Foca.reset
+  becomeUndead : PresC P Foca.becomeUndead
+  adjustConnectionState : PresC P (Foca.adjustConnectionState E)
+  setConfig : ∀ cfg, PresC P (Foca.setConfig cfg)
+
+theorem LeavesC.toP {E : Env} {P : State → List Effect → Prop} {special : Effect → Bool} (L : LeavesC E P special) :
+    LeavesP E P special where
+  plain := L.plain
+  keep := fun f h => L.keep f h.keep4
+  probeMono := fun g _ => L.keep _ (fun _ => ⟨rfl, rfl, rfl, rfl, rfl⟩)
+  emitOther := L.emitOther
+  removeDown := L.removeDown
+  membersNext := L.membersNext
+  sendMessage := L.sendMessage
+  applyUpdate := L.applyUpdate
+  applyExistingReport := L.applyExistingReport
+  reset := L.reset
+  becomeUndead := L.becomeUndead
+  adjustConnectionState := L.adjustConnectionState
+  setConfig := L.setConfig
+
+/-- a read followed by a write computed from what was read -/
+theorem PresC.getS_modS_bind {P : State → List Effect → Prop} {β} {g : State → State → State} {k : State → M β}
+    (h1 : ∀ s eff, P s eff → P (g s s) eff) (h2 : ∀ s, PresC P (k s)) :
+    PresC P (Foca.getS >>= fun s => Foca.modS (g s) >>= fun _ => k s) :=
+  ⟨fun c hc => by
+    simp only [bind_run, getS_run, modS_run]
+    exact (h2 c.s).run _ (h1 c.s c.eff hc)⟩
+
+/-- a leaf about `modS g`, read at one state -/
+theorem PresC.modS_at {P : State → List Effect → Prop} {g : State → State} (h : PresC P (Foca.modS g)) (s : State)
+    (eff : List Effect) (hs : P s eff) : P (g s) eff :=
+  h.run ⟨s, eff, default⟩ hs
+
 section
-variable {E : Env} {P : State → List Effect → Prop} {special : Effect → Bool} (L : LeavesC E P special)
+variable {E : Env} {P : State → List Effect → Prop} {special : Effect → Bool} (L : LeavesP E P special)
 include L
 
-theorem LeavesC.sendAll (msg : Msg) (ds : List Id) : PresC P (Foca.sendAll E msg ds) := by
+theorem LeavesP.sendAll (msg : Msg) (ds : List Id) : PresC P (Foca.sendAll E msg ds) := by
   induction ds with
   | nil => unfold Foca.sendAll; exact PresC.pure _
   | cons d rest ih =>
     unfold Foca.sendAll
     exact PresC.bind (L.sendMessage d msg) (fun _ => ih)
 
-theorem LeavesC.chooseAndSend (n : Nat) (msg : Msg) : PresC P (Foca.chooseAndSend E n msg) := by
+theorem LeavesP.chooseAndSend (n : Nat) (msg : Msg) : PresC P (Foca.chooseAndSend E n msg) := by
   unfold Foca.chooseAndSend
   presc
   exact L.sendAll _ _
 
-theorem LeavesC.gossip : PresC P (Foca.gossip E) := by
+theorem LeavesP.gossip : PresC P (Foca.gossip E) := by
   unfold Foca.gossip
   presc
   exact L.chooseAndSend _ _
 
-theorem LeavesC.announceToDown (n : Nat) : PresC P (Foca.announceToDown E n) := by
+theorem LeavesP.announceToDown (n : Nat) : PresC P (Foca.announceToDown E n) := by
   unfold Foca.announceToDown
   presc
   exact L.sendAll _ _
 
-theorem LeavesC.addUpdate (m : Member) : PresC P (Foca.addUpdate E m) := by
+theorem LeavesP.addUpdate (m : Member) : PresC P (Foca.addUpdate E m) := by
   unfold Foca.addUpdate
-  exact L.keep _ (fun _ => ⟨rfl, rfl, rfl, rfl, rfl⟩)
+  exact L.keep _ (fun _ => ⟨rfl, rfl, rfl, rfl, rfl, rfl⟩)
 
-theorem LeavesC.changeIdentity (i : Id) (p : Policy) : PresC P (Foca.changeIdentity E i p) := by
+theorem LeavesP.changeIdentity (i : Id) (p : Policy) : PresC P (Foca.changeIdentity E i p) := by
   unfold Foca.changeIdentity
   presc
   all_goals first
-    | exact L.keep _ (fun _ => ⟨rfl, rfl, rfl, rfl, rfl⟩)
+    | exact L.keep _ (fun _ => ⟨rfl, rfl, rfl, rfl, rfl, rfl⟩)
     | exact L.reset
     | exact L.addUpdate _
     | exact L.gossip
 
-theorem LeavesC.attemptRejoin : PresC P (Foca.attemptRejoin E) := by
+theorem LeavesP.attemptRejoin : PresC P (Foca.attemptRejoin E) := by
   unfold Foca.attemptRejoin
   presc
   all_goals first
     | exact L.changeIdentity _ _
     | exact L.emitOther _ (L.plain _ rfl rfl)
 
-theorem LeavesC.handleSelfUpdate (inc : Nat) (st : St) : PresC P (Foca.handleSelfUpdate E inc st) := by
+theorem LeavesP.handleSelfUpdate (inc : Nat) (st : St) : PresC P (Foca.handleSelfUpdate E inc st) := by
   unfold Foca.handleSelfUpdate
   presc
   all_goals first
     | exact L.attemptRejoin
     | exact L.becomeUndead
     | exact L.gossip
-    | exact L.keep _ (fun _ => ⟨rfl, rfl, rfl, rfl, rfl⟩)
+    | exact L.keep _ (fun _ => ⟨rfl, rfl, rfl, rfl, rfl, rfl⟩)
 
-theorem LeavesC.applyOne (u : Member) (b : Bool) : PresC P (Foca.applyOne E u b) := by
+theorem LeavesP.applyOne (u : Member) (b : Bool) : PresC P (Foca.applyOne E u b) := by
   unfold Foca.applyOne
   presc
   all_goals first
     | exact L.handleSelfUpdate _ _
     | exact L.applyUpdate _ _
 
-theorem LeavesC.applyLoop (b : Bool) (us : List Member) : PresC P (Foca.applyLoop E b us) := by
+theorem LeavesP.applyLoop (b : Bool) (us : List Member) : PresC P (Foca.applyLoop E b us) := by
   induction us with
   | nil => unfold Foca.applyLoop; exact PresC.pure _
   | cons u rest ih =>
     unfold Foca.applyLoop
     exact PresC.bind (L.applyOne u b) (fun _ => ih)
 
-theorem LeavesC.applyMany (us : List Member) (b : Bool) : PresC P (Foca.applyMany E us b) := by
+theorem LeavesP.applyMany (us : List Member) (b : Bool) : PresC P (Foca.applyMany E us b) := by
   unfold Foca.applyMany
   presc
   · exact L.applyLoop _ _
   · exact L.adjustConnectionState
 
-theorem LeavesC.broadcastLoop (ds : List Id) : PresC P (Foca.broadcastLoop E ds) := by
+theorem LeavesP.broadcastLoop (ds : List Id) : PresC P (Foca.broadcastLoop E ds) := by
   induction ds with
   | nil => unfold Foca.broadcastLoop; exact PresC.pure _
   | cons d rest ih =>
@@ -280,71 +365,76 @@ theorem LeavesC.broadcastLoop (ds : List Id) : PresC P (Foca.broadcastLoop E ds)
     · exact L.sendMessage _ _
     · exact ih
 
-theorem LeavesC.broadcastApi : PresC P (Foca.broadcastApi E) := by
+theorem LeavesP.broadcastApi : PresC P (Foca.broadcastApi E) := by
   unfold Foca.broadcastApi
   presc
   exact L.broadcastLoop _
 
-theorem LeavesC.leaveCluster : PresC P (Foca.leaveCluster E) := by
+theorem LeavesP.leaveCluster : PresC P (Foca.leaveCluster E) := by
   unfold Foca.leaveCluster
   presc
   · exact L.addUpdate _
   · exact L.gossip
   · exact L.becomeUndead
 
-theorem LeavesC.addBroadcast (d : Bytes) : PresC P (Foca.addBroadcast E d) := by
+theorem LeavesP.addBroadcast (d : Bytes) : PresC P (Foca.addBroadcast E d) := by
   unfold Foca.addBroadcast
   presc
-  all_goals exact L.keep _ (fun _ => ⟨rfl, rfl, rfl, rfl, rfl⟩)
+  all_goals exact L.keep _ (fun _ => ⟨rfl, rfl, rfl, rfl, rfl, rfl⟩)
 
-theorem LeavesC.reuseDownIdentity : PresC P Foca.reuseDownIdentity := by
+theorem LeavesP.reuseDownIdentity : PresC P Foca.reuseDownIdentity := by
   unfold Foca.reuseDownIdentity
   presc
   exact L.reset
 
-theorem LeavesC.probeSuspectFailed : PresC P (Foca.probeSuspectFailed E) := by
+theorem LeavesP.probeSuspectFailed : PresC P (Foca.probeSuspectFailed E) := by
   unfold Foca.probeSuspectFailed
+  refine PresC.getS_modS_bind (g := fun s s' => { s' with probe := s.probe.takeFailed.2 })
+    (fun s eff hs => PresC.modS_at (L.probeMono _ ProbeMono.takeFailed) s eff hs) (fun s => ?_)
   presc
   all_goals first
-    | exact L.keep _ (fun _ => ⟨rfl, rfl, rfl, rfl, rfl⟩)
     | exact L.applyExistingReport _ _
     | exact L.emitOther _ (L.plain _ rfl rfl)
 
-theorem LeavesC.probeStartNext : PresC P (Foca.probeStartNext E) := by
+theorem LeavesP.probeStartNext (hstart : ∀ m, PresC P (modS fun s => { s with probe := s.probe.start m })) :
+    PresC P (Foca.probeStartNext E) := by
   unfold Foca.probeStartNext
   presc
   all_goals first
     | exact L.membersNext
-    | exact L.keep _ (fun _ => ⟨rfl, rfl, rfl, rfl, rfl⟩)
+    | exact hstart _
     | exact L.sendMessage _ _
     | exact L.emitOther _ (L.plain _ rfl rfl)
 
-theorem LeavesC.pingReqLoop (probed : Id) (ds : List Id) : PresC P (Foca.pingReqLoop E probed ds) := by
+theorem LeavesP.pingReqLoop (probed : Id) (ds : List Id) : PresC P (Foca.pingReqLoop E probed ds) := by
   induction ds with
   | nil => unfold Foca.pingReqLoop; exact PresC.pure _
   | cons d rest ih =>
     unfold Foca.pingReqLoop
     presc
-    · exact L.keep _ (fun _ => ⟨rfl, rfl, rfl, rfl, rfl⟩)
+    · exact L.probeMono (fun p => { p with indirect := p.indirect ++ [_] }) (fun _ => Or.inr ⟨rfl, id⟩)
     · exact L.sendMessage _ _
     · exact ih
 
-/-- the branch of `handle_timer` for a loop timer `t`, for an invariant that lets the timers of that loop be
-    re-armed freely -/
-theorem LeavesC.loopBranch (t : Timer) (ht : t.isLoop = true)
+/-- the probe branch of `handle_timer`, for an invariant that lets probe timers be re-armed freely -/
+theorem LeavesP.probeBranch (tok : Nat) (hstart : ∀ m, PresC P (modS fun s => { s with probe := s.probe.start m }))
+    (hemit : ∀ p t', t'.loopNo = some 0 → PresC P (emit (.timer p t'))) : PresC P (Foca.handleTimer E (.probe tok)) := by
+  unfold Foca.handleTimer
+  presc
+  unfold Foca.probeRandomMember
+  presc
+  all_goals first
+    | exact L.probeMono _ ProbeMono.clear
+    | exact L.probeSuspectFailed
+    | exact L.probeStartNext hstart
+    | exact hemit _ _ rfl
+    | exact L.emitOther _ (L.plain _ rfl rfl)
+
+/-- the branch of `handle_timer` for a periodic task -/
+theorem LeavesP.periodicBranch (t : Timer) (ht : t.isLoop = true) (hnp : t.loopNo ≠ some 0)
     (hemit : ∀ p t', t'.loopNo = t.loopNo → PresC P (emit (.timer p t'))) : PresC P (Foca.handleTimer E t) := by
   cases t with
-  | probe tok =>
-    unfold Foca.handleTimer
-    presc
-    unfold Foca.probeRandomMember
-    presc
-    all_goals first
-      | exact L.keep _ (fun _ => ⟨rfl, rfl, rfl, rfl, rfl⟩)
-      | exact L.probeSuspectFailed
-      | exact L.probeStartNext
-      | exact hemit _ _ rfl
-      | exact L.emitOther _ (L.plain _ rfl rfl)
+  | probe tok => exact absurd rfl hnp
   | pa tok =>
     unfold Foca.handleTimer
     presc
@@ -367,8 +457,24 @@ theorem LeavesC.loopBranch (t : Timer) (ht : t.isLoop = true)
   | s2d m inc tok => simp [Timer.isLoop] at ht
   | rm m => simp [Timer.isLoop] at ht
 
+/-- the branch of `handle_timer` for a loop timer `t`, for an invariant that lets the timers of that loop be
+    re-armed freely -/
+theorem LeavesP.loopBranch (t : Timer) (ht : t.isLoop = true)
+    (hstart : ∀ m, PresC P (modS fun s => { s with probe := s.probe.start m }))
+    (hemit : ∀ p t', t'.loopNo = t.loopNo → PresC P (emit (.timer p t'))) : PresC P (Foca.handleTimer E t) := by
+  by_cases hp : t.loopNo = some 0
+  · cases t with
+    | probe tok => exact L.probeBranch tok hstart (fun p t' h => hemit p t' h)
+    | pa tok => simp [Timer.loopNo] at hp
+    | pad tok => simp [Timer.loopNo] at hp
+    | pg tok => simp [Timer.loopNo] at hp
+    | indirect p tok => simp [Timer.isLoop] at ht
+    | s2d m inc tok => simp [Timer.isLoop] at ht
+    | rm m => simp [Timer.isLoop] at ht
+  · exact L.periodicBranch t ht hp hemit
+
 /-- `handle_timer`; the branches of the loop timers are a hypothesis -/
-theorem LeavesC.handleTimer (t : Timer) (hloop : t.isLoop = true → PresC P (Foca.handleTimer E t)) :
+theorem LeavesP.handleTimer (t : Timer) (hloop : t.isLoop = true → PresC P (Foca.handleTimer E t)) :
     PresC P (Foca.handleTimer E t) := by
   cases t with
   | probe tok => exact hloop rfl
@@ -379,7 +485,7 @@ theorem LeavesC.handleTimer (t : Timer) (hloop : t.isLoop = true → PresC P (Fo
     unfold Foca.handleTimer
     presc
     all_goals first
-      | exact L.keep _ (fun _ => ⟨rfl, rfl, rfl, rfl, rfl⟩)
+      | exact L.probeMono (fun p => { p with reached := true }) (fun _ => Or.inr ⟨rfl, fun _ => rfl⟩)
       | exact L.pingReqLoop _ _
   | s2d m inc tok =>
     unfold Foca.handleTimer
@@ -393,43 +499,44 @@ theorem LeavesC.handleTimer (t : Timer) (hloop : t.isLoop = true → PresC P (Fo
     presc
     exact L.removeDown _
 
-theorem LeavesC.customLoop (sender : Option Id) (fuel : Nat) (data : Bytes) : PresC P (Foca.customLoop E sender fuel data) := by
+theorem LeavesP.customLoop (sender : Option Id) (fuel : Nat) (data : Bytes) : PresC P (Foca.customLoop E sender fuel data) := by
   induction fuel generalizing data with
   | zero => unfold Foca.customLoop; exact PresC.throwE _
   | succ f ih =>
     unfold Foca.customLoop
     presc
     all_goals first
-      | exact L.keep _ (fun _ => ⟨rfl, rfl, rfl, rfl, rfl⟩)
+      | exact L.keep _ (fun _ => ⟨rfl, rfl, rfl, rfl, rfl, rfl⟩)
       | exact ih _
 
-theorem LeavesC.handleCustomBroadcasts (data : Bytes) (sender : Option Id) :
+theorem LeavesP.handleCustomBroadcasts (data : Bytes) (sender : Option Id) :
     PresC P (Foca.handleCustomBroadcasts E data sender) := by
   unfold Foca.handleCustomBroadcasts
   presc
   exact L.customLoop _ _ _
 
-theorem LeavesC.reactToMessage (h : Header) : PresC P (Foca.reactToMessage E h) := by
+theorem LeavesP.reactToMessage (h : Header) : PresC P (Foca.reactToMessage E h) := by
   unfold Foca.reactToMessage
   presc
   all_goals first
-    | exact L.keep _ (fun _ => ⟨rfl, rfl, rfl, rfl, rfl⟩)
+    | exact L.probeMono (fun p => p.receiveAck _ _) (ProbeMono.receiveAck _ _)
+    | exact L.probeMono (fun p => p.receiveIndirectAck _ _) (ProbeMono.receiveIndirectAck _ _)
     | exact L.sendMessage _ _
     | exact L.handleSelfUpdate _ _
 
-theorem LeavesC.inactiveSender (h : Header) : PresC P (Foca.inactiveSender E h) := by
+theorem LeavesP.inactiveSender (h : Header) : PresC P (Foca.inactiveSender E h) := by
   unfold Foca.inactiveSender
   presc
   all_goals first
     | exact L.handleSelfUpdate _ _
     | exact L.sendMessage _ _
 
-theorem LeavesC.replyStage (h : Header) (cres : Option ErrKind) : PresC P (Foca.replyStage E h cres) := by
+theorem LeavesP.replyStage (h : Header) (cres : Option ErrKind) : PresC P (Foca.replyStage E h cres) := by
   unfold Foca.replyStage
   presc
   exact L.reactToMessage _
 
-theorem LeavesC.handleData (data : Bytes) : PresC P (Foca.handleData E data) := by
+theorem LeavesP.handleData (data : Bytes) : PresC P (Foca.handleData E data) := by
   unfold Foca.handleData
   presc
   all_goals first
@@ -439,7 +546,7 @@ theorem LeavesC.handleData (data : Bytes) : PresC P (Foca.handleData E data) := 
     | exact PresC.attempt (L.handleCustomBroadcasts _ _)
     | exact L.replyStage _ _
 
-theorem LeavesC.runOp (op : Op)
+theorem LeavesP.runOp (op : Op)
     (hloop : ∀ t, op = .timer t → t.isLoop = true → PresC P (Foca.handleTimer E t)) :
     PresC P (Foca.runOp E op) := by
   cases op <;> unfold Foca.runOp <;> presc
@@ -457,4 +564,16 @@ theorem LeavesC.runOp (op : Op)
     | exact L.setConfig _
 
 end
+
+/-! the walk for `LeavesC` (invariants that do not look at the probe) -/
+
+theorem LeavesC.loopBranch {E : Env} {P : State → List Effect → Prop} {special : Effect → Bool} (L : LeavesC E P special)
+    (t : Timer) (ht : t.isLoop = true)
+    (hemit : ∀ p t', t'.loopNo = t.loopNo → PresC P (emit (.timer p t'))) : PresC P (Foca.handleTimer E t) :=
+  L.toP.loopBranch t ht (fun _ => L.keep _ (fun _ => ⟨rfl, rfl, rfl, rfl, rfl⟩)) hemit
+
+theorem LeavesC.runOp {E : Env} {P : State → List Effect → Prop} {special : Effect → Bool} (L : LeavesC E P special)
+    (op : Op) (hloop : ∀ t, op = .timer t → t.isLoop = true → PresC P (Foca.handleTimer E t)) :
+    PresC P (Foca.runOp E op) := L.toP.runOp op hloop
+
 end Foca
